@@ -16,12 +16,41 @@ FUNCTION_PROXIES = {}    # 'module.func' -> proxy callable
 
 # ---- randomness ----------------------------------------------------------------------------
 
+def current_log():
+    ctx = core.cur()
+    return ctx.memo.setdefault('random_draw_log', [])
+
+
+class GlobalRNGUsed(Exception):
+    """The code under test consulted NumPy's global (unseeded) random generator."""
+
+
+def _global_rng(name):
+    real = getattr(_np.random, name)
+
+    def f(*a, **k):
+        if not core.active():
+            return real(*a, **k)
+        raise GlobalRNGUsed('numpy.random.%s (global generator) called: result cannot be reproduced from '
+                            'random_state' % name)
+    return f
+
+
+for _n in ('choice', 'randint', 'random', 'rand', 'randn', 'shuffle', 'permutation', 'random_integers',
+           'random_sample', 'uniform', 'normal', 'seed'):
+    if hasattr(_np.random, _n):
+        funcs.SUB.setdefault('random', {})[_n] = _global_rng(_n)
+
+
 class SymRandom:
     """Nondeterministic stand-in for numpy RandomState / Generator: every draw is an
     arbitrary admissible value (fresh variable)."""
 
+    distinct_arrays = True
+
     def __init__(self, log=None):
-        self.draws = log if log is not None else []
+        # all generators created on one path share one log (order of draws = order of calls)
+        self.draws = log if log is not None else current_log()
 
     def _draw(self, lo, hi_excl, what):
         if hi_excl - lo <= 0:
@@ -33,6 +62,25 @@ class SymRandom:
     def choice(self, a, size=None, replace=True, p=None):
         if size is not None or p is not None:
             raise Unsupported('choice(size=/p=)')
+        from .arr import LazyIdx
+        if isinstance(a, LazyIdx) and a._forced is None and a.mask.ndim == 1:
+            # arbitrary element of {i : mask_i}: no fork on the mask
+            m = _raw(a.mask)
+            n = m.shape[0]
+            anyset = core.sor(*[m[i] for i in range(n)])
+            if not core.branch(anyset):
+                raise ValueError("'a' cannot be empty unless no samples are taken")
+            v = core.fresh_int('rnd', 0, n - 1)
+            sel = None
+            for i in range(n - 1, -1, -1):
+                sel = m[i] if sel is None else core.ite(v == i, m[i], sel)
+            core.cur().add(core.to_z3_bool(sel))
+            # the recorded draw is the rank of v among the set positions (what the real generator is asked for)
+            rank = 0
+            for i in range(n):
+                rank = rank + core.ite(core.sand(m[i], v > i), 1, 0)
+            self.draws.append(('choice', rank))
+            return v
         a = _unlazy(a)
         if isinstance(a, (int, _np.integer)):
             return self._draw(0, int(a), 'choice')
@@ -55,12 +103,24 @@ class SymRandom:
         if size is None:
             return self._draw(int(low), int(high), 'integers')
         n = int(size)
-        return funcs.np_array([self._draw(int(low), int(high), 'integers') for _ in range(n)], dtype=_np.int64)
+        vals = [self._draw(int(low), int(high), 'integers') for _ in range(n)]
+        if self.distinct_arrays and int(high) - int(low) >= n:
+            # rejection loops ("redraw until all different") are collapsed: the first draw is assumed
+            # duplicate-free; the set of post-loop states is the same.
+            import itertools
+            for a, b in itertools.combinations(vals, 2):
+                core.cur().add(a.t != b.t)
+        return funcs.np_array(vals, dtype=_np.int64)
+
+
+REPLAY_RANDOM = [None]     # set by harness replays: generator that replays recorded draws
 
 
 def sym_check_random_state(seed):
     from sklearn.utils import check_random_state as real
     if not core.active():
+        if REPLAY_RANDOM[0] is not None:
+            return REPLAY_RANDOM[0]
         return real(seed)
     if isinstance(seed, SymRandom):
         return seed
@@ -69,6 +129,8 @@ def sym_check_random_state(seed):
 
 def sym_default_rng(seed=None):
     if not core.active():
+        if REPLAY_RANDOM[0] is not None:
+            return REPLAY_RANDOM[0]
         return _np.random.default_rng(seed)
     if isinstance(seed, SymRandom):
         return seed
